@@ -67,6 +67,15 @@ def stepOp (s : St) (op obs : String) : Except String St := do
     match C01.checkProgram prog (valsD s) s.ctrs obs (lenient := true) with
     | .ok (sh, c, m) => return { s with vals := s.vals ++ [some sh], ctrs := s.ctrs ++ [c], models := s.models ++ [m] }
     | .error e => throw e
+  | ["procs"] =>
+    -- C14: once every run has completed no machine has procs booked (and none is booked below zero)
+    if !obs.startsWith "procs=" then throw s!"machine accounting was not reported: {obs.take 100}"
+    for m in ((obs.drop 6).toString.splitOn ",").filter (· ≠ "") do
+      match m.splitOn ":" with
+      | [mx, used] =>
+        if used != "0" then throw s!"after all runs completed a machine with {mx} task procs has {used} procs booked (capacity leaked or handed back twice)"
+      | _ => throw s!"unparsable machine accounting {m}"
+    return s
   | _ => throw s!"bad op {op}"
 
 def run (c obs : String) : String × String × Bool :=
